@@ -669,14 +669,7 @@ pub fn run(ctx: &Ctx) -> i32 {
 }
 
 pub fn replay(path: &std::path::Path) -> i32 {
-    let text = std::fs::read_to_string(path).unwrap_or_else(|e| {
-        eprintln!("harness error: cannot read {}: {}", path.display(), e);
-        std::process::exit(2)
-    });
-    let doc: Value = serde_json::from_str(&text).unwrap_or_else(|e| {
-        eprintln!("harness error: {} does not parse: {}", path.display(), e);
-        std::process::exit(2)
-    });
+    let doc: Value = crate::common::read_replay(path);
     let vs = replay_value(&doc["scenario"]);
     conclude_replay("C16", &vs, doc["class"].as_str())
 }
